@@ -191,6 +191,11 @@ pub fn run_seq(p: &Prepared, seq: &[usize], corrupt: Option<&Corrupt>, g: &mut G
         return Some((format!("C03/panic/{}", panic_sig(&pm)), format!("panic: {}", pm)));
     }
     let mut oh: Vec<String> = Vec::new();
+    if std::env::var("VERIF_DEBUG").is_ok() {
+        for w in &out.writers {
+            eprintln!("  writer toi {} [{}] data {:?} (content {:?}) errs {:?}", w.toi, w.short(), w.data(), p.contents.get(&w.toi), out.errs);
+        }
+    }
     for w in &out.writers {
         oh.push(format!("{}:{}", w.toi, w.short()));
         if w.is_complete() {
@@ -349,6 +354,26 @@ fn configs(thorough: bool) -> Vec<Cfg> {
                     v.push(x);
                 }
             }
+        }
+    }
+    // a short last symbol inside a block of several symbols (so that it can arrive FIRST in its block), without
+    // and with MD5, in-band and FDT-only FTI
+    for (scheme, e, b, parity, len) in [(Scheme::NoCode, 4u16, 2u16, 0u16, 7usize), (Scheme::NoCode, 4, 3, 0, 10), (Scheme::NoCode, 4, 2, 0, 15), (Scheme::Rs28, 4, 2, 1, 7), (Scheme::Rs28Us, 4, 3, 1, 9)] {
+        for md5 in [false, true] {
+            for inband_fti in [true, false] {
+                let mut x = c(scheme, e, b, parity, len, 0, inband_fti, 1, false, 1);
+                x.md5 = md5;
+                v.push(x);
+            }
+        }
+    }
+    // ... and interleaved, so that the packet carrying the close-object flag is NOT the short symbol (which
+    // may then arrive first in its block without interrupting the object)
+    for (e, b, len) in [(4u16, 3u16, 19usize), (4, 3, 18), (4, 2, 23)] {
+        for md5 in [false, true] {
+            let mut x = c(Scheme::NoCode, e, b, 0, len, 0, true, 1, false, 2);
+            x.md5 = md5;
+            v.push(x);
         }
     }
     // RaptorQ partitions the receiver has to rebuild from (F, T, Z) alone: equal blocks, more blocks than
